@@ -10,34 +10,52 @@ import (
 // Profile selects which features a generated project may use. Every property uses the same
 // model with a profile biased towards the shapes it cares about.
 type Profile struct {
-	MaxControllers int
-	MaxMethods     int
-	CtrlPackages   []string // package dirs controllers may live in
-	Decoys         bool     // non-endpoint methods that look almost like endpoints
-	Hidden         bool
-	Security       bool
-	Enforce        bool // may switch enforceSecurityOnAllRoutes on
-	ExtraParams    int  // max query/header/body params beyond the route's path params
-	Types          bool // declared types (structs/enums/aliases) in params, bodies, results
-	TypePackages   []string
-	Validators     bool // validator strings on params and fields
-	Responses      bool // @Response / @ErrorResponse / custom error types
-	SlashNoise     bool // doubled / missing / trailing slashes in templates
-	TrailingSlash  bool
-	FixedEngine    string
-	FixedOpenAPI   string
-	NoLayoutNoise  bool
-	SharedPrefix   bool // two controllers may share a route prefix
-	PtrParams      bool
-	FormParams     bool
-	ContextParams  bool
-	GroupedParams  bool
-	SliceQuery     bool
+	MaxControllers   int
+	MaxMethods       int
+	CtrlPackages     []string // package dirs controllers may live in
+	Decoys           bool     // non-endpoint methods that look almost like endpoints
+	Hidden           bool
+	Security         bool
+	Enforce          bool // may switch enforceSecurityOnAllRoutes on
+	ExtraParams      int  // max query/header/body params beyond the route's path params
+	Types            bool // declared types (structs/enums/aliases) in params, bodies, results
+	TypePackages     []string
+	Validators       bool // validator strings on params and fields
+	Responses        bool // @Response / @ErrorResponse / custom error types
+	SlashNoise       bool // doubled / missing / trailing slashes in templates
+	TrailingSlash    bool
+	VarySchemes      bool // draw the security scheme catalogue of the configuration
+	UndeclaredScheme bool // sometimes let routes name a scheme the configuration does not declare
+	FixedEngine      string
+	FixedOpenAPI     string
+	NoLayoutNoise    bool
+	SharedPrefix     bool // two controllers may share a route prefix
+	PtrParams        bool
+	FormParams       bool
+	ContextParams    bool
+	GroupedParams    bool
+	SliceQuery       bool
 }
 
 var CoreProfile = Profile{
 	MaxControllers: 3, MaxMethods: 5, CtrlPackages: []string{"api", "api2", "internal/api3"},
 	Decoys: true, Hidden: true, Security: true, ExtraParams: 2, SlashNoise: true, SharedPrefix: true,
+}
+
+var schemeCatalogue = []Scheme{
+	{Name: "keyHeader", Type: "apiKey", In: "header", FieldName: "X-Api-Key", Description: "api key in a header"},
+	{Name: "keyQuery", Type: "apiKey", In: "query", FieldName: "api_key", Description: "api key in the query"},
+	{Name: "keyCookie", Type: "apiKey", In: "cookie", FieldName: "session", Description: "api key in a cookie"},
+	{Name: "basic", Type: "http", HTTPScheme: "basic", Description: "basic auth"},
+	{Name: "bearer", Type: "http", HTTPScheme: "bearer", Description: "bearer token"},
+	{Name: "oauthImplicit", Type: "oauth2", Description: "oauth2 implicit", Flows: map[string]any{"implicit": map[string]any{
+		"authorizationUrl": "https://example.com/auth", "scopes": map[string]any{"read": "r", "write": "w", "admin": "a", "items:read": "ir"}}}},
+	{Name: "oauthCode", Type: "oauth2", Description: "oauth2 code", Flows: map[string]any{"authorizationCode": map[string]any{
+		"authorizationUrl": "https://example.com/auth", "tokenUrl": "https://example.com/token", "refreshUrl": "https://example.com/refresh",
+		"scopes": map[string]any{"read": "r", "write": "w", "admin": "a", "items:read": "ir"}}}},
+	{Name: "oauthClient", Type: "oauth2", Description: "oauth2 client credentials", Flows: map[string]any{"clientCredentials": map[string]any{
+		"tokenUrl": "https://example.com/token", "scopes": map[string]any{"read": "r", "write": "w", "admin": "a", "items:read": "ir"}}}},
+	{Name: "oidc", Type: "openIdConnect", OpenIDURL: "https://example.com/.well-known/openid-configuration", Description: "open id connect"},
 }
 
 var primTypes = []string{"string", "bool", "int", "int8", "int16", "int32", "int64", "uint", "uint8", "uint16", "uint32", "uint64", "float32", "float64"}
@@ -95,7 +113,7 @@ func sameTemplateOtherNames(a, b string) bool {
 	return differ
 }
 
-func genSec(t *rapid.T, label string) []Sec {
+func genSec(t *rapid.T, label string, schemeNames []string) []Sec {
 	n := rapid.SampledFrom([]int{0, 0, 1, 1, 2, 3}).Draw(t, label+"N")
 	var out []Sec
 	for i := 0; i < n; i++ {
@@ -142,8 +160,23 @@ func GenProject(t *rapid.T, pf Profile) *Project {
 	if pf.FixedOpenAPI != "" {
 		cfg.OpenAPI = pf.FixedOpenAPI
 	}
+	secNames := schemeNames
+	if pf.VarySchemes {
+		cfg.Schemes = nil
+		secNames = nil
+		n := rapid.IntRange(1, 4).Draw(t, "nSchemes")
+		for i := 0; i < n; i++ {
+			sc := rapid.SampledFrom(schemeCatalogue).Draw(t, "schemeKind")
+			sc.Name = fmt.Sprintf("%s%d", sc.Name, i)
+			cfg.Schemes = append(cfg.Schemes, sc)
+			secNames = append(secNames, sc.Name)
+		}
+		if pf.UndeclaredScheme && rapid.IntRange(0, 7).Draw(t, "undeclared") == 0 {
+			secNames = append(append([]string{}, secNames...), "ghostAuth")
+		}
+	}
 	if pf.Security && rapid.IntRange(0, 2).Draw(t, "hasDefaultSec") == 0 {
-		s := Sec{Scheme: rapid.SampledFrom(schemeNames).Draw(t, "defScheme"), Scopes: rapid.SliceOfNDistinct(rapid.SampledFrom(scopePool), 0, 2, func(s string) string { return s }).Draw(t, "defScopes")}
+		s := Sec{Scheme: rapid.SampledFrom(secNames).Draw(t, "defScheme"), Scopes: rapid.SliceOfNDistinct(rapid.SampledFrom(scopePool), 0, 2, func(s string) string { return s }).Draw(t, "defScopes")}
 		cfg.DefaultSec = &s
 	}
 	p.Config = cfg
@@ -187,7 +220,7 @@ func GenProject(t *rapid.T, pf Profile) *Project {
 		}
 		prefixes = append(prefixes, c.Route)
 		if pf.Security {
-			c.Security = genSec(t, "ctrlSec")
+			c.Security = genSec(t, "ctrlSec", secNames)
 		}
 		c.Desc = genDesc(t, "ctrlDesc")
 		c.Grouped = !pf.NoLayoutNoise && rapid.IntRange(0, 4).Draw(t, "grouped") == 0
@@ -278,7 +311,7 @@ func GenProject(t *rapid.T, pf Profile) *Project {
 			}
 			m.Deprecated = rapid.IntRange(0, 4).Draw(t, "deprecated") == 0
 			if pf.Security {
-				m.Security = genSec(t, "methSec")
+				m.Security = genSec(t, "methSec", secNames)
 			}
 			genResults(t, pf, p, c, m, types)
 			if rapid.IntRange(0, 2).Draw(t, "hasDescLines") == 0 {
@@ -437,4 +470,10 @@ var FullProfile = Profile{
 	Decoys: true, Hidden: true, Security: true, ExtraParams: 4, Types: true, TypePackages: []string{"models", "shared"},
 	Validators: true, Responses: true, SlashNoise: true, SharedPrefix: true, PtrParams: true, FormParams: true,
 	ContextParams: true, GroupedParams: true, SliceQuery: true,
+}
+
+// SecurityProfile biases towards C04: every level of security, varied scheme catalogue, enforce flag.
+var SecurityProfile = Profile{
+	MaxControllers: 3, MaxMethods: 4, CtrlPackages: []string{"api", "api2"},
+	Hidden: true, Security: true, Enforce: true, ExtraParams: 1, SharedPrefix: true, VarySchemes: true, UndeclaredScheme: true,
 }
